@@ -378,4 +378,80 @@ theorem path_idempotent (d d' p : Str) : normPath d' (normPath d p) = normPath d
   · exact key p
   · exact key (d ++ '/' :: p)
 
+/-! ### written paths and the "still the default?" tests of `normalise_paths` -/
+
+/-- Every "is this option still at its default?" test of the regenerated `normalise_paths` is on a
+    path option of the schema, compares against that option's *own default*, and compares the
+    stored value itself (not `Path(value)`): only the untouched default - a `Path` - can pass it,
+    never a value written in a settings file, `--config` or on the command line (all strings). -/
+theorem sentinel_tests_sound :
+    ∀ e ∈ Generated.sentinelTests,
+      e.2.1 = false ∧ aget e.1 Generated.settingsSchema = some (Tag.path, .atom (.path e.2.2.1)) := by
+  decide
+
+/-- Relative paths are interpreted relative to the project file, for *every* written value: whatever
+    the schema and whatever raw sentinel tests `normalise_paths` makes, a path option that holds a
+    string `p` (what a settings file, `--config` or the command line delivers) holds
+    `normalise_path(project directory, p)` afterwards - also when `p` spells the option's default
+    (`favicon: favicon.png`, `md_base_dir: .`) or anything pathlib takes for it (`./favicon.png`). -/
+theorem written_path_relative_to_project_dir (schema : List (Str × Tag × PyVal))
+    (tests : List (Str × Bool × Str × SentinelRepl)) (dir pkg : Str) (s s' : Settings) (k p : Str)
+    (hraw : ∀ e ∈ tests, e.2.1 = false)
+    (ht : tagOf schema k = some .path ∨ tagOf schema k = some .optPath)
+    (hd : k ≠ "directory".toList) (hu : k ≠ "project_url".toList)
+    (hk : aget k s = some (.atom (.str p)))
+    (h : normalisePaths schema tests dir pkg s = .ok s') :
+    aget k s' = some (.atom (.path (normPath dir p))) := by
+  obtain ⟨v', hv1, hv2⟩ := aget_normalisePaths schema tests dir pkg s s' k _ hraw hd hu
+    ⟨hk, by intro q hq; cases hq⟩ h
+  rcases ht with ht | ht <;> simp [ht, normField, normAtom] at hv1 <;> rw [hv2, ← hv1]
+
+/-- The same for the list-of-paths options (`src_dir`, `exclude_dir`, `include`, ...): every item. -/
+theorem written_path_list_relative_to_project_dir (schema : List (Str × Tag × PyVal))
+    (tests : List (Str × Bool × Str × SentinelRepl)) (dir pkg : Str) (s s' : Settings) (k : Str) (ps : List Str)
+    (hraw : ∀ e ∈ tests, e.2.1 = false)
+    (ht : tagOf schema k = some .listPath)
+    (hd : k ≠ "directory".toList) (hu : k ≠ "project_url".toList)
+    (hk : aget k s = some (.list (ps.map .str)))
+    (h : normalisePaths schema tests dir pkg s = .ok s') :
+    aget k s' = some (.list (ps.map (fun p => .path (normPath dir p)))) := by
+  obtain ⟨v', hv1, hv2⟩ := aget_normalisePaths schema tests dir pkg s s' k _ hraw hd hu
+    ⟨hk, by intro q hq; cases hq⟩ h
+  simp [ht, normField, normAtoms_strs] at hv1
+  rw [hv2, ← hv1]
+
+/-- Over the regenerated tables (schema, sentinel tests): every path option of FORD written as a
+    string is resolved from the project directory by `normalise_paths`.  This is the obligation
+    that no longer checks when a sentinel test starts to compare `Path(value)`. -/
+theorem written_path_relative_generated (dir pkg : Str) (s s' : Settings) (k p : Str)
+    (ht : tagOf Generated.settingsSchema k = some .path ∨ tagOf Generated.settingsSchema k = some .optPath)
+    (hd : k ≠ "directory".toList)
+    (hk : aget k s = some (.atom (.str p)))
+    (h : normalisePaths Generated.settingsSchema Generated.sentinelTests dir pkg s = .ok s') :
+    aget k s' = some (.atom (.path (normPath dir p))) := by
+  refine written_path_relative_to_project_dir _ _ dir pkg s s' k p
+    (fun e he => (sentinel_tests_sound e he).1) ht hd ?_ hk h
+  intro hu
+  subst hu
+  revert ht
+  decide
+
+/-- Why "compares the stored value itself" is demanded, for any sentinel and any replacement: a test
+    that compares `Path(value)` takes a written string that pathlib reads as the sentinel for the
+    untouched default and replaces it - the project's own `favicon.png` next to the project file
+    would silently become the icon shipped with FORD (a default overriding the file). -/
+theorem coerced_sentinel_swallows_written_witness (dir pkg f sent p : Str) (repl : SentinelRepl) (s : Settings)
+    (hp : pathParts p = pathParts sent) (hk : aget f s = some (.atom (.str p))) :
+    applySentinels dir pkg [(f, true, sent, repl)] s = .ok (aset f (sentinelValue dir pkg sent repl) s)
+    ∧ applySentinels dir pkg [(f, false, sent, repl)] s = .ok s := by
+  simp [applySentinels, sentinelHit, hk, hp]
+
+/-- non-vacuity: `./favicon.png` is read by pathlib as `favicon.png`; `img/favicon.png` is not -/
+example : pathParts "./favicon.png".toList = pathParts "favicon.png".toList
+    ∧ pathParts "img/favicon.png".toList ≠ pathParts "favicon.png".toList := by decide
+
+/-- non-vacuity over the regenerated tables: `favicon` and `md_base_dir` are path options -/
+example : tagOf Generated.settingsSchema "favicon".toList = some .path
+    ∧ tagOf Generated.settingsSchema "md_base_dir".toList = some .path := by decide
+
 end Ford.C15
